@@ -37,7 +37,7 @@ TapeOf(e) ==
     [sends |-> [i \in DOMAIN S |-> [dst |-> S[i].dst, mem |-> S[i].d.mem, items |-> S[i].d.items]],
      order |-> IF HasField(e.hook, "order") THEN IdsOf(e.hook.order) ELSE <<>>,
      pind |-> IF HasField(e.hook, "probe") THEN e.hook.probe.ind ELSE <<>>,
-     auto |-> FALSE, pref |-> <<>>, hv |-> 0]
+     auto |-> FALSE, pref |-> <<>>, hv |-> 0, eres |-> e.res]
 
 \* a datagram built by the specification against the parsed observed one
 DgMatches(s, o) ==
